@@ -279,6 +279,24 @@ class Ctx:
                         ob.model = None
                         ob.note = "cvc5 sat, z3 gave no model"
                     ob.backend = "cvc5"
+            if ob.status == "unknown" and use_cvc5:
+                # second round with three times the budgets: only ever reached by an obligation both solvers left open, which
+                # on an idle machine does not happen on the unchanged tree - it keeps verdicts from flipping to "undecided"
+                # when all cores are busy (several checks at once)
+                s.set("timeout", OBL_TIMEOUT_MS * 3)
+                r = s.check()
+                if r == z3.unsat:
+                    ob.status, ob.backend = "proved", "z3"
+                elif r == z3.sat:
+                    ob.status, ob.backend = "refuted", "z3"
+                    ob.model = self._model_dict(s.model())
+                else:
+                    ans = run_cvc5(s.to_smt2().replace("(check-sat)", ""), CVC5_TIMEOUT_S * 3)
+                    if ans == "unsat":
+                        ob.status, ob.backend = "proved", "cvc5"
+                    elif ans == "sat":
+                        ob.status, ob.backend, ob.model = "refuted", "cvc5", None
+                        ob.note = "cvc5 sat (second round), no model"
         ob.secs = time.time() - t0
         return ob.status
 
